@@ -26,6 +26,12 @@ structure State where
   crTbl : List (Prefix × List (Prefix × Nat)) := []
   /-- the configuration file as last (re)loaded -/
   raw : RawCfg := {}
+  /-- the handler's reused decode scratch -/
+  scratchTyp : Nat := 0
+  scratch : Details := {}
+  /-- what each sender (primary authenticated address) put into DECODABLE answers / updates so far in this case:
+  rendered addresses and relays -/
+  sentBy : List (Addr × List String) := []
   /-- remote allow lists that were in force earlier in this case (before reloads) -/
   pastRals : List AllowList.Remote := []
 
@@ -238,13 +244,34 @@ def step (s : State) (args : List String) (impl : String) : State × Out :=
     match s.cfg with
     | none => (s, { model := "none", tag := "triv:none" })
     | some c =>
+      let handleP (from_ : List Addr) (p : Packet) (tag : String) : State × Out :=
+        let r := handlePacket c { lh := s.lh, scratchTyp := s.scratchTyp, scratch := s.scratch } from_ p
+        let o := r.2
+        let typ := p.msg.typ
+        let d := p.details.getD {}
+        -- what this message itself carries (the only source its effects may draw on)
+        let own : List String := (d.v4.map showAP) ++ (d.v6.map (fun a => showAP a.out)) ++ ((getRelays d).map showAddr)
+        let f0 := from_.headD ⟨.v4, 0⟩
+        let sentBy' := if p.ok && (typ == typHostQueryReply || typ == typHostUpdateNotification) then (f0, own) :: s.sentBy else s.sentBy
+        let base := msgVerdict c from_ typ impl
+        -- C35: a punch is scheduled only to an address the (authorised) message itself carries
+        let pSec := section_ impl "P"
+        let foreign := pSec != "-" && pSec != "?" && (pSec.splitOn ",").any fun e =>
+          match e.splitOn ">" with
+          | [tg, _] => tg != "-" && !(own.contains tg) && !(d.v6.any (fun a => showAP a == tg))
+          | _ => false
+        let verdict := if base != "ok" then base else if !p.ok && (section_ impl "S" != "-" || pSec != "-" || section_ impl "T" != "-")
+          then "bad lh-undecodable-packet-has-effect" else if foreign then "bad lh-punch-target-not-in-message" else "ok"
+        ({ s with lh := r.1.lh, scratchTyp := r.1.scratchTyp, scratch := r.1.scratch, sentBy := sentBy' },
+         { model := showOut o, verdict := verdict, tag := tag })
       let handle (from_ : List Addr) (m : Option Msg) (tag : String) : State × Out :=
-        let (lh', o) := match m with
-          | some m => handleRequest c s.lh from_ m
-          | none => (s.lh, {})
-        let typ := (m.map (·.typ)).getD 0
-        ({ s with lh := lh' }, { model := showOut o, verdict := msgVerdict c from_ typ impl, tag := tag })
-      match op, rest with
+        match m with
+        | some m => handleP from_ { typ := some m.typ, details := m.details, ok := true } tag
+        | none => handleP from_ { ok := false } tag
+      -- `bad`: the bytes of a `msg` plus a tail that makes Unmarshal fail after the message was decoded into the scratch
+      let op' := if op == "bad" then "msg" else op
+      let rest' := if op == "bad" then rest.take 8 else rest
+      match op', rest' with
       | "msg", [f, t, v, vpn, l4, l6, orl, rl] =>
         match parseList parseAddr f, t.toNat?, v.toNat?, (if vpn == "-" then some none else (parseAddr vpn).map some),
               parseList parseAP l4, parseList parseAP l6, parseList parseAddr orl, parseList parseAddr rl with
@@ -258,8 +285,8 @@ def step (s : State) (args : List String) (impl : String) : State × Out :=
           let d : Details := { oldVpn := old, vpn := nw, v4 := l4, v6 := l6.map (fun (a : AP) => ({ addr := as16 a.addr, port := a.port } : AP)),
                                oldRelays := orl.map (·.val), relays := rl.map as16 }
           let fromLH := Spec.Lighthouse.fromLighthouse c f
-          let tag := s!"msg:t{t}:" ++ (if c.amLighthouse then "lh" else "node") ++ (if fromLH then ":from-lh" else ":from-peer")
-          handle f (some { typ := t, details := some d }) tag
+          let tag := s!"{op}:t{t}:" ++ (if c.amLighthouse then "lh" else "node") ++ (if fromLH then ":from-lh" else ":from-peer")
+          handleP f { typ := if t == 0 then none else some t, details := some d, ok := op == "msg" } tag
         | _, _, _, _, _, _, _, _ => (s, badOp)
       | "nodetails", [f, t] =>
         match parseList parseAddr f, t.toNat? with
@@ -278,7 +305,22 @@ def step (s : State) (args : List String) (impl : String) : State × Out :=
           let rep := (seg.splitOn "|Y:").headD ""
           let rel := (((seg.splitOn "|Y:").drop 1).headD "").splitOn "]" |>.headD ""
           (rep != "-" && (rep.splitOn ",").length > 2 * maxRemotes) || (rel != "-" && (rel.splitOn ",").length > maxRemotes)
-        (s, { model := m, verdict := if capBad then "bad addr-owner-cap" else expect "lh-cache-dump" impl m,
+        -- C35: what a list holds under an owner O (other than this node itself) was sent by O in a decodable message
+        let foreign := (impl.splitOn "[L:").drop 1 |>.zip ((impl.splitOn "[L:").dropLast.map fun pre =>
+            -- the owner is the token right before "[L:"
+            let toks := pre.splitOn ";"
+            let last := (toks.getLast?.getD "")
+            ((last.splitOn ":").getLast?.getD last)) |>.any fun (seg, ownerTok) =>
+          match parseAddr ownerTok with
+          | none => false
+          | some o =>
+            if o = c.me then false else
+            let mine := (s.sentBy.filter (fun e => e.1 = o)).flatMap (·.2)
+            let rep := ((seg.splitOn "|R:").drop 1 |>.headD "").splitOn "|Y:" |>.headD ""
+            let rel := ((seg.splitOn "|Y:").drop 1 |>.headD "").splitOn "]" |>.headD ""
+            (rep != "-" && (rep.splitOn ",").any (fun x => !mine.contains x)) ||
+              (rel != "-" && (rel.splitOn ",").any (fun x => !mine.contains x))
+        (s, { model := m, verdict := if capBad then "bad addr-owner-cap" else if foreign then "bad lh-owner-holds-foreign-data" else expect "lh-cache-dump" impl m,
               tag := if s.lh.addrMap.isEmpty then "triv:dump" else "dump" })
       | "addrs", [v] =>
         match parseAddr v with
